@@ -22,4 +22,12 @@ CHECKS = {
    technique="explicit-state BFS to fixpoint over edit histories, lock-step with an ordered-list model",
    text="Every forest reachable by any edit history over universes of 3-4 (thorough: 5) named nodes is reached; every transition is executed on real Node objects and on the list model and compared; every query is evaluated in every distinct state. This is the complete behaviour for those universes, not a sample.",
    note="Universe size (<=5 nodes, names a/b/c) and in-range insertion indices are the bound; the list model and the canonical form (children lists, parent links, registered flags) are trusted."),
+ "C13": dict(level=MC, engine="E1", design_ref="DESIGN.md section 3 C13",
+   technique="explicit-state BFS to fixpoint over attach/detach/declare/re-declare/remove histories, lock-step with a dict-per-node scoping model and a frame condition",
+   text="All histories over 3 nodes, 2 prefixes, 2 URIs are explored to the fixpoint of the canonical state space (values + aliasing partition of the nsmap dict objects), 4 nodes to depth 6 in the thorough tier; every transition is executed on real Nodes and compared with the model; nodes outside the operation's subtree must be unchanged.",
+   note="Bounds: 3 (4) nodes, prefixes {p,q}, URIs {u1,u2}. Inherited bindings on descendants of an attached child are either-of (statement silent). Bulk helpers fix_nsmap/set_nsmap are checked against the frame condition only."),
+ "C01": dict(level=MC, engine="E2", design_ref="DESIGN.md section 3 C01",
+   technique="per-rule minimal DFA built independently from rules.json; all words up to length L plus Chow W-method conformance suite replayed against validate.node in both modes",
+   text="For every rule the children section is compiled to a minimal DFA (strict and lenient reading); every word of length <= L and the complete W-method suite P.Sigma^<=k.W are executed on the real validator in fail-fast and collecting mode. The suite is complete for any finite-state validator with up to k extra states, so agreement is established for all finite sequences under that fault model and outright for all short ones.",
+   note="Fault model of the W-method (deterministic finite acceptor, <= k extra states; k=1 quick, 2-3 thorough); my regex->DFA pipeline is cross-checked against a direct regex matcher in setup; unspecified zone = strict/lenient difference."),
 }
